@@ -6,251 +6,7 @@ verus! {
 //@ include prelude/numeric_id.vs
 
 
-//@ item union-find/src/lib.rs struct UnionFind
-
-// ---------------- abstract view ----------------
-pub open spec fn wf<V: NumericId>(p: Seq<V>) -> bool {
-    forall|i: int| 0 <= i < p.len() ==> (#[trigger] p[i]).ix() <= i
-}
-
-/// root(p, i): follow parents from i. Well-founded because of the min-id discipline (wf).
-pub open spec fn root<V: NumericId>(p: Seq<V>, i: nat) -> nat
-    decreases i
-{
-    if i < p.len() && p[i as int].ix() < i { root(p, p[i as int].ix()) } else { i }
-}
-
-pub open spec fn same<V: NumericId>(p: Seq<V>, x: nat, y: nat) -> bool {
-    root(p, x) == root(p, y)
-}
-
-pub proof fn lemma_root_le<V: NumericId>(p: Seq<V>, i: nat)
-    ensures root(p, i) <= i,
-    decreases i
-{
-    if i < p.len() && p[i as int].ix() < i { lemma_root_le(p, p[i as int].ix()); }
-}
-
-/// The representative is a fixed point: it is its own parent (or outside the table).
-pub proof fn lemma_root_fixed<V: NumericId>(p: Seq<V>, i: nat)
-    requires wf(p),
-    ensures
-        root(p, root(p, i)) == root(p, i),
-        root(p, i) < p.len() ==> p[root(p, i) as int].ix() == root(p, i),
-        i < p.len() ==> root(p, i) < p.len(),
-    decreases i
-{
-    if i < p.len() && p[i as int].ix() < i { lemma_root_fixed(p, p[i as int].ix()); }
-}
-
-pub proof fn lemma_self_root<V: NumericId>(p: Seq<V>, i: nat)
-    requires wf(p), root(p, i) == i, i < p.len(),
-    ensures p[i as int].ix() == i,
-{
-    if p[i as int].ix() < i { lemma_root_le(p, p[i as int].ix()); }
-}
-
-/// Growing the table with self-parented slots changes no root.
-pub proof fn lemma_extend<V: NumericId>(p0: Seq<V>, p1: Seq<V>, j: nat)
-    requires
-        p0.len() <= p1.len(),
-        forall|k: int| 0 <= k < p0.len() ==> p1[k] == p0[k],
-        forall|k: int| p0.len() <= k < p1.len() ==> (#[trigger] p1[k]).ix() == k,
-    ensures root(p1, j) == root(p0, j),
-    decreases j
-{
-    if j < p0.len() && p0[j as int].ix() < j { lemma_extend(p0, p1, p0[j as int].ix()); }
-}
-
-/// Re-pointing any number of slots to strictly smaller nodes of the same class changes no root.
-/// (path halving, full compression and no compression all satisfy the premise.)
-pub proof fn lemma_compress<V: NumericId>(p0: Seq<V>, p1: Seq<V>, j: nat)
-    requires
-        wf(p0),
-        p0.len() == p1.len(),
-        forall|k: int| 0 <= k < p0.len() && p1[k] != p0[k] ==> (#[trigger] p1[k]).ix() < k && root(p0, p1[k].ix()) == root(p0, k as nat),
-    ensures root(p1, j) == root(p0, j),
-    decreases j
-{
-    if j < p0.len() {
-        if p1[j as int] == p0[j as int] {
-            if p0[j as int].ix() < j { lemma_compress(p0, p1, p0[j as int].ix()); }
-        } else {
-            lemma_compress(p0, p1, p1[j as int].ix());
-        }
-    }
-}
-
-pub proof fn lemma_compress_all<V: NumericId>(p0: Seq<V>, p1: Seq<V>)
-    requires
-        wf(p0),
-        p0.len() == p1.len(),
-        forall|k: int| 0 <= k < p0.len() && p1[k] != p0[k] ==> (#[trigger] p1[k]).ix() < k && root(p0, p1[k].ix()) == root(p0, k as nat),
-    ensures
-        wf(p1),
-        forall|j: nat| root(p1, j) == root(p0, j),
-{
-    assert forall|j: nat| root(p1, j) == root(p0, j) by { lemma_compress(p0, p1, j); }
-    assert forall|i: int| 0 <= i < p1.len() implies (#[trigger] p1[i]).ix() <= i by {
-        if p1[i] != p0[i] { } else { assert(p0[i].ix() <= i); }
-    }
-}
-
-/// Linking root M under root m < M: exactly the class of M moves to m, everything else stays.
-pub proof fn lemma_link<V: NumericId>(p0: Seq<V>, big: int, m: V, j: nat)
-    requires
-        wf(p0),
-        0 <= big < p0.len(),
-        m.ix() < big,
-        p0[big].ix() == big,
-        p0[m.ix() as int].ix() == m.ix(),
-    ensures
-        root(p0.update(big, m), j) == (if root(p0, j) == big { m.ix() } else { root(p0, j) }),
-    decreases j
-{
-    let p1 = p0.update(big, m);
-    if j < p0.len() {
-        if j == big {
-            assert(p1[j as int].ix() == m.ix());
-            lemma_link(p0, big, m, m.ix());
-        } else if p0[j as int].ix() < j {
-            lemma_link(p0, big, m, p0[j as int].ix());
-        }
-    }
-}
-
-pub proof fn lemma_link_all<V: NumericId>(p0: Seq<V>)
-    requires wf(p0),
-    ensures
-        forall|big: int, m: V, j: nat|
-            (0 <= big < p0.len() && m.ix() < big && p0[big].ix() == big && p0[m.ix() as int].ix() == m.ix())
-            ==> #[trigger] root(p0.update(big, m), j) == (if root(p0, j) == big { m.ix() } else { root(p0, j) }),
-        forall|big: int, m: V| (0 <= big < p0.len() && m.ix() < big) ==> wf(#[trigger] p0.update(big, m)),
-        forall|i: nat| root(p0, root(p0, i)) == #[trigger] root(p0, i),
-        forall|i: nat| (#[trigger] root(p0, i)) < p0.len() ==> p0[root(p0, i) as int].ix() == root(p0, i),
-        forall|i: nat| i < p0.len() ==> (#[trigger] root(p0, i)) < p0.len(),
-        forall|i: nat| (#[trigger] root(p0, i)) <= i,
-{
-    assert forall|big: int, m: V, j: nat|
-            (0 <= big < p0.len() && m.ix() < big && p0[big].ix() == big && p0[m.ix() as int].ix() == m.ix())
-            implies #[trigger] root(p0.update(big, m), j) == (if root(p0, j) == big { m.ix() } else { root(p0, j) }) by {
-        lemma_link(p0, big, m, j);
-    }
-    assert forall|big: int, m: V| (0 <= big < p0.len() && m.ix() < big) implies wf(#[trigger] p0.update(big, m)) by {
-        let p1 = p0.update(big, m);
-        assert forall|i: int| 0 <= i < p1.len() implies (#[trigger] p1[i]).ix() <= i by {
-            if i != big { assert(p0[i].ix() <= i); }
-        }
-    }
-    assert forall|i: nat| root(p0, root(p0, i)) == #[trigger] root(p0, i) by { lemma_root_fixed(p0, i); }
-    assert forall|i: nat| (#[trigger] root(p0, i)) < p0.len() implies p0[root(p0, i) as int].ix() == root(p0, i) by { lemma_root_fixed(p0, i); }
-    assert forall|i: nat| i < p0.len() implies (#[trigger] root(p0, i)) < p0.len() by { lemma_root_fixed(p0, i); }
-    assert forall|i: nat| (#[trigger] root(p0, i)) <= i by { lemma_root_le(p0, i); }
-}
-
-//@ impl union-find/src/lib.rs impl<Value: NumericId> UnionFind<Value>
-
-//@ fn reserve
-//@ rewrite R-HOIST 0
-//@ at sig
-    requires
-        wf(old(self).parents@),
-        // Vec cannot hold 2^64 elements: for index usize::MAX the real code aborts (capacity overflow)
-        v.ix() < usize::MAX,
-    ensures
-        wf(final(self).parents@),
-        final(self).parents@.len() > v.ix(),
-        final(self).parents@.len() == (if v.ix() >= old(self).parents@.len() { v.ix() + 1 } else { old(self).parents@.len() }),
-        forall|k: int| 0 <= k < old(self).parents@.len() ==> final(self).parents@[k] == old(self).parents@[k],
-        forall|k: int| old(self).parents@.len() <= k < final(self).parents@.len() ==> (#[trigger] final(self).parents@[k]).ix() == k,
-        forall|j: nat| root(final(self).parents@, j) == root(old(self).parents@, j),
-//@ at loop 0 spec
-            invariant
-                __s0 <= i <= v.ix() + 1,
-                v.ix() < usize::MAX,
-                self.parents@.len() == i,
-                old(self).parents@.len() <= i,
-                forall|k: int| 0 <= k < old(self).parents@.len() ==> self.parents@[k] == old(self).parents@[k],
-                forall|k: int| old(self).parents@.len() <= k < self.parents@.len() ==> (#[trigger] self.parents@[k]).ix() == k,
-//@ at end
-        proof {
-            assert forall|j: nat| root(self.parents@, j) == root(old(self).parents@, j) by {
-                lemma_extend(old(self).parents@, self.parents@, j);
-            }
-            assert forall|i: int| 0 <= i < self.parents@.len() implies (#[trigger] self.parents@[i]).ix() <= i by {
-                if i < old(self).parents@.len() { assert(old(self).parents@[i].ix() <= i); }
-            }
-        }
-//@ end-fn
-
-//@ fn find
-//@ ret r
-//@ at sig
-    requires wf(old(self).parents@), id.ix() < usize::MAX,
-    ensures
-        r.ix() == root(old(self).parents@, id.ix()),
-        wf(final(self).parents@),
-        final(self).parents@.len() >= old(self).parents@.len(),
-        final(self).parents@.len() > id.ix(),
-        forall|j: nat| root(final(self).parents@, j) == root(old(self).parents@, j),
-//@ at loop 0 spec
-            invariant
-                wf(self.parents@),
-                cur.ix() < self.parents@.len(),
-                self.parents@.len() >= old(self).parents@.len(),
-                self.parents@.len() > id.ix(),
-                root(self.parents@, cur.ix()) == root(old(self).parents@, id.ix()),
-                forall|j: nat| root(self.parents@, j) == root(old(self).parents@, j),
-            ensures
-                self.parents@[cur.ix() as int].ix() == cur.ix(),
-            decreases cur.ix(),
-//@ at loop 0 body-start
-            let ghost p0 = self.parents@;
-            proof { reveal_with_fuel(root, 3); lemma_link_all(p0); }
-//@ at loop 0 body-end
-            proof { lemma_compress_all(p0, self.parents@); }
-//@ at after-loop 0
-        proof { reveal_with_fuel(root, 2); }
-//@ end-fn
-
-//@ fn find_naive
-//@ ret r
-//@ at sig
-    requires wf(self.parents@),
-    ensures r.ix() == root(self.parents@, id.ix()),
-//@ at loop 0 spec
-            invariant
-                wf(self.parents@),
-                cur.ix() < self.parents@.len(),
-                root(self.parents@, cur.ix()) == root(self.parents@, id.ix()),
-            ensures
-                self.parents@[cur.ix() as int].ix() == cur.ix(),
-            decreases cur.ix(),
-//@ end-fn
-
-//@ fn union
-//@ ret r
-//@ at sig
-    requires wf(old(self).parents@), a.ix() < usize::MAX, b.ix() < usize::MAX,
-    ensures
-        wf(final(self).parents@),
-        final(self).parents@.len() >= old(self).parents@.len(),
-        final(self).parents@.len() > a.ix() && final(self).parents@.len() > b.ix(),
-        ({
-            let ra = root(old(self).parents@, a.ix());
-            let rb = root(old(self).parents@, b.ix());
-            let lo = if ra <= rb { ra } else { rb };
-            let hi = if ra <= rb { rb } else { ra };
-            &&& (ra != rb ==> r.0.ix() == lo && r.1.ix() == hi)
-            &&& (ra == rb ==> r.0.ix() == ra && r.1.ix() == ra)
-            &&& forall|j: nat| #[trigger] root(final(self).parents@, j)
-                    == (if root(old(self).parents@, j) == hi { lo } else { root(old(self).parents@, j) })
-        }),
-//@ at tail
-        proof { lemma_link_all(self.parents@); }
-//@ end-fn
-
-//@ end-impl
-
+//@ include units/uf/spec.vs
+//@ include units/uf/impl.vs
 } // verus!
 fn main() {}
